@@ -1196,7 +1196,7 @@ func (fo *folder) scalarReplace(fd *ast.FuncDecl, fresh func(*types.TypeName) bo
 			if !ok || !fresh(n.Obj()) {
 				return nil
 			}
-			if _, isStruct := n.Underlying().(*types.Struct); !isStruct || n.TypeArgs().Len() > 0 {
+			if _, isStruct := n.Underlying().(*types.Struct); !isStruct {
 				return nil
 			}
 			return n
@@ -1332,8 +1332,69 @@ func (fo *folder) scalarReplace(fd *ast.FuncDecl, fresh func(*types.TypeName) bo
 			}
 		}
 		pre := fo.prefix[pick.stmt]
+		// a field that is initialised with a plain variable which is never assigned again, and is itself never written,
+		// simply stands for that variable
+		direct := make([]types.Object, st.NumFields())
+		{
+			written := map[int]bool{}
+			assignedObj := map[types.Object]int{}
+			ast.Inspect(fd.Body, func(n ast.Node) bool {
+				mark := func(e ast.Expr) {
+					e = unparen(e)
+					if sel, ok := e.(*ast.SelectorExpr); ok {
+						if id, ok := sel.X.(*ast.Ident); ok && info.Uses[id] == pick.v {
+							if sl := info.Selections[sel]; sl != nil && len(sl.Index()) == 1 {
+								written[sl.Index()[0]] = true
+							}
+						}
+					}
+					if id, ok := e.(*ast.Ident); ok {
+						if o := info.Uses[id]; o != nil {
+							assignedObj[o]++
+						}
+					}
+				}
+				switch x := n.(type) {
+				case *ast.AssignStmt:
+					if x.Tok != token.DEFINE {
+						for _, l := range x.Lhs {
+							mark(l)
+						}
+					}
+				case *ast.IncDecStmt:
+					mark(x.X)
+				case *ast.UnaryExpr:
+					if x.Op == token.AND {
+						mark(x.X)
+					}
+				case *ast.RangeStmt:
+					if x.Tok == token.ASSIGN {
+						if x.Key != nil {
+							mark(x.Key)
+						}
+						if x.Value != nil {
+							mark(x.Value)
+						}
+					}
+				}
+				return true
+			})
+			for j := range inits {
+				if inits[j] == nil || written[j] {
+					continue
+				}
+				if id, ok := unparen(inits[j]).(*ast.Ident); ok {
+					if o, isVar := info.Uses[id].(*types.Var); isVar && !o.IsField() && assignedObj[o] == 0 && o.Pkg() == fo.p.Types && o.Parent() != fo.p.Types.Scope() {
+						direct[j] = o
+					}
+				}
+			}
+		}
 		var repl []ast.Stmt
 		for j := 0; j < st.NumFields(); j++ {
+			if direct[j] != nil {
+				continue
+			}
 			f := st.Field(j)
 			pos := pick.stmt.Pos()
 			if inits[j] != nil {
@@ -1364,7 +1425,10 @@ func (fo *folder) scalarReplace(fd *ast.FuncDecl, fresh func(*types.TypeName) bo
 			case *ast.SelectorExpr:
 				if id, isId := x.X.(*ast.Ident); isId && info.Uses[id] == pick.v {
 					s := info.Selections[x]
-					nv := vars[s.Index()[0]]
+					var nv types.Object = vars[s.Index()[0]]
+					if d := direct[s.Index()[0]]; d != nil {
+						nv = d
+					}
 					nid := &ast.Ident{Name: nv.Name(), NamePos: x.Pos()}
 					info.Uses[nid] = nv
 					if tv, ok := info.Types[x]; ok {
